@@ -33,7 +33,10 @@ ALL = [f"C{i:02d}" for i in range(1, 21)]
 
 def head_copy() -> str:
     tmp = tempfile.mkdtemp(prefix="csverif-seed-")
-    data = subprocess.run(["git", "-C", REPO, "archive", "HEAD", "dissect/cobaltstrike", "scripts"], capture_output=True, check=True).stdout
+    paths = ["dissect/cobaltstrike", "scripts"]
+    if subprocess.run(["git", "-C", REPO, "cat-file", "-e", "HEAD:docs"], capture_output=True).returncode == 0:
+        paths.append("docs")  # some patches also touch the documentation sources
+    data = subprocess.run(["git", "-C", REPO, "archive", "HEAD"] + paths, capture_output=True, check=True).stdout
     with tarfile.open(fileobj=io.BytesIO(data)) as t:
         t.extractall(tmp)
     return tmp
